@@ -9,7 +9,7 @@
          C03  an API result (Put2 / Delete2 / lookup) differs from the one the key's real state dictates,
               or two deletes of one version both succeeded;
          C04  the allocator reports a double / invalid free or a damaged freed block, a node is returned to the
-              allocator while a writer inside Delete2 still holds it, a step touches a freed node, or a session is
+              allocator while a writer inside Delete2 still holds it, a step touches a freed node, a garbage list handed to a snapshot contains a freed node ("Fault"), or a session is
               destructed while a writer that entered before its flush is still inside;
          C07  after Close a block is still live, or a node was not freed exactly once.
    drift (the real state differs from the model's: reported as MODEL-DRIFT, never a verdict). *)
@@ -112,9 +112,12 @@ TClosed == /\ l <= N /\ Ev.e = "Closed" /\ l' = l + 1 /\ UNCHANGED <<vars, drift
                 ELSE IF \E i \in 1..Len(Ev.freed) : Ev.freed[i] # 1 THEN "C07:a node was not released by Close"
                 ELSE IF Ev.damaged > 0 THEN "C04:a freed block was written to"
                 ELSE "", "BAD")
+TFault == /\ l <= N /\ Ev.e = "Fault" /\ l' = l + 1 /\ UNCHANGED <<vars, drift>>
+          /\ bad' = Note(bad, "C04:" \o Ev.msg, "BAD")
+TDelRet == l <= N /\ Ev.e = "DelRet" /\ l' = l + 1 /\ UNCHANGED <<vars, bad, drift>>   \* judged by NitroWritersAPI.tla
 TDone == l = N + 1 /\ UNCHANGED tvars
 TNext == \/ TReset \/ TSkip \/ TPut \/ TDelStart \/ TG1 \/ TN1 \/ TN2 \/ TN3 \/ TN4 \/ TN5
-         \/ TDestruct \/ TFwTake \/ TFwFree \/ TSnapshot \/ TGcStep \/ TCloseDB \/ TObs \/ TClosed \/ TDone
+         \/ TDestruct \/ TFwTake \/ TFwFree \/ TSnapshot \/ TGcStep \/ TCloseDB \/ TObs \/ TClosed \/ TFault \/ TDelRet \/ TDone
 TSpec == TInit /\ [][TNext]_tvars
 Good == bad = ""
 =============================================================================
